@@ -246,17 +246,22 @@ def protoRhel (sev : String → Nat) (updater dist : String) (ignoreUnpatched : 
 
 /-! ### RPMDefsToVulns -/
 
+/-- The vulnerability for (prototype, package criterion, module): the package
+    with name, module and kind; the state's EVR as fixed version; the state's
+    arch as arch operation and package arch. -/
+def rpmVuln (p : Vuln) (name : String) (state : Option OvalState) (m : String) : Vuln :=
+  let v := { p with hasPkg := true, pkgName := name, pkgModule := m, pkgKind := "binary" }
+  match state with
+  | none => v
+  | some st =>
+    let v := { v with fixed := st.evr.getD "" }
+    match st.arch with
+    | none => v
+    | some a => { v with archOp := mapArchOp a.op, pkgArch := a.body }
+
 /-- The vulnerabilities of one resolved criterion: enabled modules × prototypes. -/
 def rpmEmit (mods : List String) (protos : List Vuln) (name : String) (state : Option OvalState) : List Vuln :=
-  mods.flatMap fun m => protos.map fun p =>
-    let v := { p with hasPkg := true, pkgName := name, pkgModule := m, pkgKind := "binary" }
-    match state with
-    | none => v
-    | some st =>
-      let v := { v with fixed := st.evr.getD "" }
-      match st.arch with
-      | none => v
-      | some a => { v with archOp := mapArchOp a.op, pkgArch := a.body }
+  mods.flatMap fun m => protos.map fun p => rpmVuln p name state m
 
 /-- Criterions of one definition, in order; `none` = the walker returns an error
     (a test of the wanted kind without object reference). -/
@@ -312,22 +317,29 @@ def validVersion (s : List Char) : Bool := !s.isEmpty && s.all isVersionChar
 def dpkgNames (root : OvalRoot) (name varRef : String) : List String :=
   if varRef = "" then [name] else (assoc? root.variables varRef).getD []
 
+/-- The vulnerability for (prototype, package name) of a dpkg criterion. -/
+def dpkgVuln (p : Vuln) (n : String) (state : Option OvalState) : Vuln :=
+  let v := { p with hasPkg := true, pkgName := n, pkgKind := "binary" }
+  match state with
+  | none => v
+  | some st =>
+    let v := { v with fixed := st.evr.getD "" }
+    match st.arch with
+    | none => v
+    | some a => { v with archOp := mapArchOp a.op, pkgArch := a.body }
+
+/-- Whether a state lets its criterion through: its (trimmed) EVR must be a valid version. -/
+def dpkgStateOk (state : Option OvalState) : Bool :=
+  match state with
+  | none => true
+  | some st => validVersion (trimSpace (st.evr.getD "").toList)
+
 /-- The vulnerabilities of one resolved dpkg criterion: prototypes × names.  A
     state whose (trimmed) EVR is not a valid version yields nothing; a state's
     arch goes onto the package (dpkg.go as fixed: before, `vuln.Package.Arch = …`
     dereferenced the prototype's nil package). -/
 def dpkgEmit (protos : List Vuln) (names : List String) (state : Option OvalState) : List Vuln :=
-  match state with
-  | none => protos.flatMap fun p => names.map fun n =>
-      { p with hasPkg := true, pkgName := n, pkgKind := "binary" }
-  | some st =>
-    let evr := st.evr.getD ""
-    if ¬ validVersion (trimSpace evr.toList) then [] else
-    protos.flatMap fun p => names.map fun n =>
-      let v := { p with hasPkg := true, pkgName := n, pkgKind := "binary", fixed := evr }
-      match st.arch with
-      | none => v
-      | some a => { v with archOp := mapArchOp a.op, pkgArch := a.body }
+  if dpkgStateOk state then protos.flatMap fun p => names.map fun n => dpkgVuln p n state else []
 
 def dpkgLeaves (root : OvalRoot) (protos : List Vuln) : List Criterion → Option (List Vuln)
   | [] => some []
